@@ -610,7 +610,12 @@ func (p *Parser) parseIncludeDirective(startPos Position) ast.Directive {
 		path.WriteString(p.current.Value)
 		p.advance()
 	}
-	pathEnd := p.contentEnd
+	// the path ends where its text ends: blanks before a comment or the line end
+	// are not part of it
+	written := strings.TrimRight(path.String(), " \t")
+	pathEnd := pathStart
+	pathEnd.Column += textColumns(written)
+	pathEnd.Offset += len(written)
 
 	pathStr := strings.TrimSpace(path.String())
 	if pathStr == "" {
@@ -623,6 +628,10 @@ func (p *Parser) parseIncludeDirective(startPos Position) ast.Directive {
 		Path:      pathStr,
 		Range:     ast.Range{Start: toASTPosition(startPos)},
 		PathRange: ast.Range{Start: toASTPosition(pathStart), End: toASTPosition(pathEnd)},
+	}
+	if p.current.Type == TokenComment {
+		// a trailing comment is part of the directive's line
+		p.advance()
 	}
 	inc.Range.End = toASTPosition(p.contentEnd)
 	p.skipToNextLine()
